@@ -81,6 +81,11 @@ func (c *core) execFunc() (*Response, error) {
 	c.req.RawRequest.CopyTo(reqv)
 	cfg := c.getRetryConfig()
 
+	// The goroutine may outlive this call (timeout or cancellation): it works on its own
+	// copies and never touches the core or the request, which go back to their pools
+	maxRedirects := c.req.maxRedirects
+	httpClient := c.client.fasthttp
+
 	var err error
 	go func() {
 		respv := fasthttp.AcquireResponse()
@@ -92,16 +97,16 @@ func (c *core) execFunc() (*Response, error) {
 		if cfg != nil {
 			// Use an exponential backoff retry strategy.
 			err = retry.NewExponentialBackoff(*cfg).Retry(func() error {
-				if c.req.maxRedirects > 0 && (string(reqv.Header.Method()) == fiber.MethodGet || string(reqv.Header.Method()) == fiber.MethodHead) {
-					return c.client.fasthttp.DoRedirects(reqv, respv, c.req.maxRedirects)
+				if maxRedirects > 0 && (string(reqv.Header.Method()) == fiber.MethodGet || string(reqv.Header.Method()) == fiber.MethodHead) {
+					return httpClient.DoRedirects(reqv, respv, maxRedirects)
 				}
-				return c.client.fasthttp.Do(reqv, respv)
+				return httpClient.Do(reqv, respv)
 			})
 		} else {
-			if c.req.maxRedirects > 0 && (string(reqv.Header.Method()) == fiber.MethodGet || string(reqv.Header.Method()) == fiber.MethodHead) {
-				err = c.client.fasthttp.DoRedirects(reqv, respv, c.req.maxRedirects)
+			if maxRedirects > 0 && (string(reqv.Header.Method()) == fiber.MethodGet || string(reqv.Header.Method()) == fiber.MethodHead) {
+				err = httpClient.DoRedirects(reqv, respv, maxRedirects)
 			} else {
-				err = c.client.fasthttp.Do(reqv, respv)
+				err = httpClient.Do(reqv, respv)
 			}
 		}
 
